@@ -267,8 +267,22 @@ func genItems(rng *rand.Rand, v6 bool) []item {
 			case kind < 9:
 				it.b, it.class = []byte{}, "empty"
 			default:
+				// no End option: cut inside an option, pad octets only (a BOOTP-sized zero tail), complete options followed
+				// by pads -- all undecodable; they carry their nonce in the transaction id, so a dispatch would be recognised
 				w, _ := gen4.WirePacket(rng, 0)
-				it.b, it.class = append(w[:240:240], 53, 1), "no-end"
+				w = w[:240:240]
+				binary.BigEndian.PutUint32(w[4:8], uint32(it.nonce)|0x80000000)
+				switch rng.IntN(4) {
+				case 0:
+					w = append(w, 53, 1)
+				case 1:
+					w = append(w, make([]byte, 1+rng.IntN(60))...)
+				case 2:
+					w = append(w, make([]byte, 60+rng.IntN(250))...)
+				default:
+					w = append(append(w, 53, 1, byte(1+rng.UintN(8)), 12, 2, 'h', 'i'), make([]byte, rng.IntN(40))...)
+				}
+				it.b, it.class, it.byXid = w, "no-end", true
 			}
 			if p, ok, _ := ref4.Decode(it.b); ok {
 				it.valid, it.want = true, p.Canon()
@@ -449,7 +463,13 @@ func runCase(r *mon.Rec, famName string, idx int) {
 	logCfg := rng.IntN(3)
 	restoreErr := cli.QuietStderr()
 	if v6 {
-		srv, err := server6.NewServer("", nil, func(c net.PacketConn, peer net.Addr, m dhcpv6.DHCPv6) {
+		// an interface name and a listen address given next to WithConn "have no effect" (doc of NewServer): any of them
+		ifname := []string{"", "", "eth0", "lo", "verif0"}[rng.IntN(5)]
+		var laddr *net.UDPAddr
+		if rng.IntN(3) == 0 {
+			laddr = &net.UDPAddr{IP: net.ParseIP("ff02::1:2"), Port: 547, Zone: ifname}
+		}
+		srv, err := server6.NewServer(ifname, laddr, func(c net.PacketConn, peer net.Addr, m dhcpv6.DHCPv6) {
 			if m == nil || reflect.ValueOf(m).IsNil() {
 				mu.Lock()
 				nilCalls++
@@ -512,7 +532,12 @@ func runCase(r *mon.Rec, famName string, idx int) {
 		if late {
 			construct = func(net.PacketConn, net.Addr, *dhcpv4.DHCPv4) { placeholderCalls.Add(1) }
 		}
-		srv, err := server4.NewServer("", nil, construct, append([]server4.ServerOpt{server4.WithConn(conn)}, logOpts4(logCfg)...)...)
+		ifname := []string{"", "", "eth0", "lo", "verif0"}[rng.IntN(5)]
+		var laddr *net.UDPAddr
+		if rng.IntN(3) == 0 {
+			laddr = &net.UDPAddr{IP: net.IPv4zero, Port: 67}
+		}
+		srv, err := server4.NewServer(ifname, laddr, construct, append([]server4.ServerOpt{server4.WithConn(conn)}, logOpts4(logCfg)...)...)
 		restoreErr()
 		if err != nil {
 			panic(err)
